@@ -33,6 +33,15 @@ class Instance:
             return "corpus:" + "::".join(segs[1:-1])
         return segs[0] + ":" + "::".join(segs[1:-1])
 
+    def owns_impl(self, path):
+        """`crate::<outer::Type as Trait>::method` belongs to this instance's public types."""
+        q = mir.qself(path)
+        if not q:
+            return False
+        rel = self.outer.split("::", 1)[1] + "::" if "::" in self.outer else ""
+        st = q[0]
+        return st.startswith(rel) and "::" not in st[len(rel):].split("<")[0]
+
     def wrapper_closure(self, rule):
         return self.fns.get(self.rule_fns[rule] + "::{closure#0}")
 
